@@ -286,7 +286,7 @@ fn edit_history_script(rng: &mut SplitMix, thorough: bool) -> NucleoScript {
     let sched = SchedCfg::generate(rng, 400, 1, 400_000);
     NucleoScript {
         weak: None,
-        pool_threads: pick(rng, &[1u32, 2, 3]),
+        pool_threads: if rng.below(60) == 0 { 0 } else { pick(rng, &[1u32, 2, 3]) },
         columns,
         capacity: Some(pick(rng, &[0u32, 32, 100])),
         config: pick(rng, &[0u8, 0, 1, 2]),
@@ -394,7 +394,8 @@ pub fn nucleo_script(rng: &mut SplitMix, focus: &str, thorough: bool) -> NucleoS
     };
     // rarely more pool threads than any machine has cores (per-thread state indexed by the pool
     // thread index must really be per thread)
-    let pool_threads = if rng.below(40) == 0 { pick(rng, &[17u32, 33]) } else { pool_threads };
+    // 0 = "let the pool decide" (rayon's convention for num_threads(0); the simulated pool then has two)
+    let pool_threads = if rng.below(40) == 0 { pick(rng, &[17u32, 33, 0]) } else { pool_threads };
     NucleoScript {
         weak,
         pool_threads,
